@@ -517,10 +517,10 @@ func bpSweepProgs(c *Ctx, every int) []*Prog {
 // its own is put before, between and after functions it accepts; passes are also run one by one through
 // FunctionPass(...).Execute on the file, as a user's own pipeline would.
 func multiFunctionFiles(o *Out, progs []*Prog, keyPrefix string, limit int) {
-	compile := func(ps ...*Prog) (err error) {
+	compile := func(ps ...*Prog) (code int) {
 		defer func() {
 			if v := recover(); v != nil {
-				err = fmt.Errorf("panic: %v", v)
+				code = panicCode(v)
 			}
 		}()
 		f := ir.NewFile()
@@ -529,35 +529,56 @@ func multiFunctionFiles(o *Out, progs []*Prog, keyPrefix string, limit int) {
 			fn.Name = fmt.Sprintf("f%d", k)
 			f.AddSection(fn)
 		}
-		return pass.Compile.Execute(f)
+		if err := pass.Compile.Execute(f); err != nil {
+			return errCode(err)
+		}
+		return 0
+	}
+	aloneOf := func(p *Prog) string {
+		ob := runStaged(p)
+		return fmt.Sprintf("(%d, %d)", stageNum[ob.Stage], ob.ErrCode)
 	}
 	good := &Prog{Attrs: attr.NOSPLIT}
 	good.Nodes = append(good.Nodes, must(x86.MOVQ(operand.U32(1), reg.RAX)), must(x86.RET()))
-	if compile(good) != nil || compile(good, good) != nil {
+	if compile(good) != 0 || compile(good, good) != 0 {
 		die(fmt.Errorf("multiFunctionFiles: the reference function does not compile"))
 	}
-	n := 0
+	var bad []*Prog
 	for _, p := range progs {
-		if n >= limit {
+		if len(bad) >= limit {
 			break
 		}
-		alone := compile(p)
-		if alone == nil {
-			continue
+		if compile(p) != 0 {
+			bad = append(bad, p)
 		}
-		n++
-		idx := o.AddCase(Case{Key: keyPrefix + ":file-level", Desc: "refused alone (" + alone.Error() + "), placed among accepted functions: " + p.Text(), Input: map[string]any{"nodes": p.Text()}, Nontrivial: true})
+	}
+	var rows []string
+	base := 3000000
+	for k, p := range bad {
+		other := bad[(k+1)%len(bad)] // a second refused function, usually refused by another pass
 		for _, arr := range []struct {
 			name string
 			ps   []*Prog
-		}{{"first of two", []*Prog{p, good}}, {"last of two", []*Prog{good, p}}, {"middle of three", []*Prog{good, p, good}}} {
-			if err := compile(arr.ps...); err == nil {
-				o.Plan.GoViolations = append(o.Plan.GoViolations, GoViolation{Key: keyPrefix + ":error-masked-by-other-function", Desc: fmt.Sprintf("case %d: a function pass.Compile refuses on its own (%v) is accepted as the %s functions of a file: %s", idx, alone, arr.name, p.Text()), Replay: map[string]any{"nodes": p.Text(), "position": arr.name}})
-				break
+		}{{"first of two", []*Prog{p, good}}, {"last of two", []*Prog{good, p}}, {"middle of three", []*Prog{good, p, good}}, {"two refused functions", []*Prog{p, other}}, {"two refused functions, reversed", []*Prog{other, p}}} {
+			var al []string
+			for _, q := range arr.ps {
+				al = append(al, aloneOf(q))
 			}
+			code := compile(arr.ps...)
+			rows = append(rows, fmt.Sprintf("(%s, %d)", cList(al), code))
+			o.Plan.Cases = append(o.Plan.Cases, Case{Index: base + len(rows) - 1, Key: keyPrefix + ":file-level", Desc: fmt.Sprintf("a function refused on its own (%s) as the %s of a file: file outcome %d: %s", aloneOf(p), arr.name, code, p.Text()), Input: map[string]any{"nodes": p.Text(), "position": arr.name}, Nontrivial: true})
 		}
 	}
-	o.Plan.Stats["refused_functions_placed_in_files"] = n
+	var b strings.Builder
+	b.WriteString("From Avo Require Import Base.Prelude Model.Obs Model.PassFramework.\nOpen Scope N_scope.\n")
+	fmt.Fprintf(&b, "Definition files : list file_case := %s.\n", cListNL(rows))
+	fmt.Fprintf(&b, "Definition R_file_violation := Eval vm_compute in List.map (N.add %d) (indices_where_ (fun c => negb (file_impl_ok c)) files).\nPrint R_file_violation.\n", base)
+	fmt.Fprintf(&b, "Definition R_file_mismatch := Eval vm_compute in List.map (N.add %d) (indices_where_ (fun c => negb (file_agree %d c)) files).\nPrint R_file_mismatch.\n", base, len(stageNum)-1)
+	o.WriteFile("Files.v", b.String())
+	o.Stage("Files.v")
+	o.ExpectEmpty("Files.v", "R_file_violation", "violation", "a file is accepted although one of its functions is refused on its own (or refused although all are accepted): the error of one function is masked by another")
+	o.ExpectEmpty("Files.v", "R_file_mismatch", "mismatch", "pass-major model of Compile over the functions of a file vs the error pass.Compile reports")
+	o.Plan.Stats["refused_functions_placed_in_files"] = len(bad)
 }
 
 // bpPrintedFrames: what the assembler will see.  Each program is compiled by the real pass.Compile and
